@@ -49,7 +49,7 @@ def s_cp_to_tensor(draw):
 
 
 register("cp_to_tensor", s_cp_to_tensor(),
-         lambda e, ctx: Call(CP.cp_to_tensor, dict(cp_tensor=_cp(e, ctx), mask=ctx.mask(e["mask"], e["shape"]))), dtypes=CPLX, quick=150)
+         lambda e, ctx: Call(CP.cp_to_tensor, dict(cp_tensor=_cp(e, ctx), mask=ctx.mask(e["mask"], e["shape"]))), dtypes=CPLX, quick=150, backends=True)
 
 
 @st.composite
